@@ -427,3 +427,30 @@ func panicSite(st string) string {
 	}
 	return rest
 }
+
+// ReplayRun executes f with a throw-away context (known findings are loaded,
+// nothing is written) and reports what it recorded: the number of violations,
+// the known-finding ids hit, and the first violation's kind and detail.
+func ReplayRun(p *Prop, f func(c *Ctx)) (violations int64, known []string, first string) {
+	c := newCtx(p, "quick", 1, 0, 1, os.TempDir())
+	func() {
+		defer func() {
+			if r := recover(); r != nil {
+				c.Violation("panic", fmt.Sprint(r), nil)
+			}
+		}()
+		f(c)
+	}()
+	for k := range c.res.Known {
+		known = append(known, k)
+	}
+	sort.Strings(known)
+	if len(c.res.Violations) > 0 {
+		v := c.res.Violations[0]
+		first = v.Kind + ": " + v.Detail
+		if i := strings.IndexByte(first, '\n'); i > 0 {
+			first = first[:i]
+		}
+	}
+	return c.res.NViolations, known, first
+}
